@@ -64,4 +64,14 @@ TEXT = {
         "level": "Generated histories with planted probe positions; after every operation twins must have identical claimable rewards, the k-times position proportional ones, the never-in-range position none; total claimed + claimable never exceeds fees paid in + incentives funded and falls short only by the computed dust bound; every claim/add/withdraw/transfer preserves matured rewards within one unit per denom per accumulator; positions younger than every incentive's uptime have no claimable incentives.",
         "note": "Trusted: the harness ledgers built from message responses and bank events of the handler results; swept-tick tracking for 'never entered'. Forfeited incentives paid to a leaving owner when no other liquidity is active are the statement's own exception and are classified, not flagged.",
     },
+    "C02": {
+        "technique": "runtime monitor: conservation ledger over balance snapshots of every participating account around every message + pool-record vs bank equalities after every message",
+        "level": "Generated histories over a zoo of balancer, stableswap and concentrated pools with random taker-fee settings; after every message (accepted or rejected) pool account balance = reported reserves + direct sends, share supply = reported shares = holders' total, traded-token supplies unchanged, and the per-message net balance change over actors, pools and the taker-fee collector is zero per denom.",
+        "note": "Trusted: bank balance and supply queries. Epoch boundaries (where x/mint and the taker-fee distribution move funds) are not crossed in these histories; C18/C19 cover them.",
+    },
+    "C05": {
+        "technique": "runtime monitor: twin-branch (metamorphic) comparison on discarded state branches — routed vs hop-by-hop, split vs legs, estimate vs execution with state digest, limit probes at estimate-1/estimate/estimate+1 judged by the sender's balance deltas",
+        "level": "After arbitrary prior activity on the pool zoo, routed swaps over 1..4 distinct pools of mixed types are executed on one branch and composed from single-hop messages on a twin branch (all balances must agree), estimates are compared with executions, and limits are probed on both sides of the estimate; what the sender pays or receives is measured on balances, taker fee included.",
+        "note": "Trusted: the chain driver's transaction semantics (cache context + recover) for 'fails as a whole'; senders on the reduced-fee whitelist are excluded from estimate comparisons (the query knows no sender); paths that repeat a denom are excluded from balance-delta limit probes.",
+    },
 }
